@@ -10,32 +10,98 @@ NOTE_COMMON = ('trusted: pyvc VC generator (kept honest by per-path CPython cros
                'contracts (stubs) listed in evidence.coverage.trusted_base; ')
 
 CLAIMED = {
- 'C03': dict(text='Proof that SSHConnection._choose_alg returns the first client-preferred algorithm the server also '
-                  'lists (or raises iff the lists are disjoint) for every pair of lists and both roles; loop invariant + '
-                  'postcondition obligations discharged by z3.',
-             ref='4/C03', note='hash/signature/DH primitives uninterpreted; GSS kex not verified; transcript binding '
-                  '(_process_kexinit, _compute_hash) contracts are being added'),
+ 'C01': dict(text='Proof that _recv_packet hands a payload to a handler only after exactly one decrypt_packet call on '
+                  '(receive counter, first block, rest, 4, mac) with the RFC 4253 framing, uses nothing but its result, and '
+                  'raises MACError on a missing result; per cipher class (Basic, ETM, GCM, Chacha) that the tag is checked '
+                  'over the right bytes and plaintext released only on success (ETM: cipher untouched before the MAC passes); '
+                  '_HMAC.sign/verify and _NullMAC.verify against the RFC 4253 6.4 MAC input.',
+             ref='4/C01, 9', note='MAC/AEAD unforgeability, compare_digest and the cipher primitives are uninterpreted '
+                  '(crypto assumptions); UMAC and the crypto/ shims are not under contract'),
+ 'C02': dict(text='Proof on send_packet (all block-size/header cases) that the bytes handed to the transport are '
+                  'enc(uint32 len || padlen || payload || padding) || mac with 4 <= padlen <= 255 aligned to the block size and '
+                  'the MAC computed over the pre-increment sequence number; Kex.compute_key equals the RFC 4253 7.2 expansion '
+                  '(inductive chain predicate, minimal length, truncation); send_newkeys installs keys derived with letters '
+                  'A..F in the right directions, session id write-once; GCMCipher._update_iv per RFC 5647; _recv_pkthdr/'
+                  '_recv_packet consume nothing unless the unit is complete and then exactly that unit (chunk independence).',
+             ref='4/C02, 9', note='hash objects are accumulators with an uninterpreted digest; zlib framing not verified; '
+                  'block sizes {1,8,16} read from the cipher table as data; the lemma "per-step framing => any segmentation" is argued on paper'),
+ 'C03': dict(text='Proof that _choose_alg returns the first client-preferred algorithm the server also lists (or raises iff '
+                  'disjoint) for all lists and both roles; that _process_kexinit stores the peer KEXINIT verbatim and chooses every '
+                  'algorithm from the list of its own direction; that _recv_version keeps exactly the wire bytes of the version '
+                  'line (one trailing CR removed); hash-input layout and range/role checks of the DH exchange where built.',
+             ref='4/C03, 9', note='hash/signature/DH primitives uninterpreted; GSS kex not verified'),
+ 'C04': dict(text='Proof of the host-key trust decision: _validate_host_key returns a key only if checking is disabled or the '
+                  'key is not revoked and (trusted or accepted by the owner) - revocation also applies to trusted keys; the '
+                  'certificate path (CA not revoked, trusted, cert.validate(HOST, host)); certificate validate (type, window, '
+                  'principals); SSHKnownHosts._match classification with a frame obligation that a lookup never changes the stored '
+                  'entries; match() port fallback keeps port-specific revocations.',
+             ref='4/C04, 9', note='pattern matching itself is C17; X.509 chain validation trusted; key parsing abstract'),
+ 'C05': dict(text='Proof over the server authentication code: every path to send_success carries the credential predicate of '
+                  'that auth class for the auth object\'s own user, the object is not cancelled and still bound to the connection\'s '
+                  'user (binding invariant J proved on the writers); tasks are created through the auth object so cancel() stops '
+                  'them; signature is over session id + this exact request; permission/option decision tables; client accepts '
+                  'SUCCESS only with a request outstanding.',
+             ref='4/C05, 9', note='asyncio cancellation semantics, application callbacks, key.verify and authorized_keys '
+                  'validation are assumed contracts; GSS MIC start path and channel-side enforcement of restrictions not reached'),
  'C06': dict(text='Proof over ALL message types 0..255 and all phase-flag valuations that the dispatch in '
                   '_recv_packet only invokes a handler the RFC phase table allows, that disallowed messages are fatal '
                   '(or answered UNIMPLEMENTED, never under strict kex before keys), and the sequence-number rule of '
                   '_finish_recv_packet (reset exactly at NEWKEYS under strict kex).',
-             ref='4/C06', note='handlers are abstract; supporting invariants A1/A2 (auth objects exist only after keys) '
-                  'are preconditions'),
- 'C11': dict(text='Proof on send_packet for every packet type, flag valuation and block size/header case: what is '
-                  'emitted during a key exchange is a kex/transport message (RFC 4253 7.1), every packet is queued xor '
-                  'emitted, kex messages are never queued, the rekey trigger fires iff limits are reached, sequence rule; '
-                  '_send_deferred_packets resubmits FIFO and keeps packets re-queued by a nested exchange.',
-             ref='4/C11', note='time.monotonic uninterpreted; _send_kexinit is an assumed contract here; compressor and '
-                  'cipher objects abstract'),
+             ref='4/C06, 9', note='handlers are abstract; supporting invariants A1/A2 (auth objects exist only after keys) '
+                  'are preconditions; handler-side role checks only where other properties put them under contract'),
+ 'C07': dict(text='Proof on the channel buffer code: sender conservation (flat(emitted) ++ flat(_send_buf) is invariant, data '
+                  'keeps its datatype, EOF leaves only when the buffer has drained, once); receiver FIFO (delivered ++ _recv_buf '
+                  'constant across the flush loop), eof_received only with an empty buffer, from eof_pending, at most once, decoder '
+                  'finalised once before EOF/close; write/write_eof/pause/resume; channel dispatch by recipient number.',
+             ref='4/C07, 9', note='codecs incremental coders trusted; session callbacks may pause reading but do not re-enter; '
+                  'known finding F-C07-1 (pending EOF forgotten when CLOSE arrives while paused) recorded'),
  'C08': dict(text='Proof on the real channel buffer code: every DATA/EXTENDED_DATA packet emitted by _flush_send_buf has '
                   '1 <= len <= min(peer window, max packet size) and the window never goes negative (pre-at-call '
                   'obligations at the emission site), the flush loop makes progress and is conservative (flat-stream '
                   'loop invariant, variant), window adjusts re-flush, a delivery never leaves the advertised window below '
                   'half, data beyond the window is a ProtocolError in _process_data, and a peer maximum packet size < 1 '
                   'is rejected where it is stored.',
-             ref='4/C08', note='liveness across the network not decided (local progress only); known finding F4 '
+             ref='4/C08, 9', note='liveness across the network not decided (local progress only); known finding F4 '
                   '(window charged on delivery, so excess data is accepted while reading is paused) is recorded in '
                   'known_findings.json; flat/tagged/chunks_ok are recursive spec functions used through instances'),
+ 'C09': dict(text='Proof of the safety core of orderly termination: channel/connection/stream cleanup resolves every waiter that '
+                  'exists, notifies session and owner exactly once and nothing after, removes the channel from the table, is '
+                  'idempotent; _force_close schedules exactly one cleanup iff the transport is set; cleanup is scheduled exactly '
+                  'when the receive side turns closed; drain raises on a lost connection.',
+             ref='4/C09, 9', note='liveness over the scheduler ("none waits forever") is not decided by contracts; asyncio '
+                  'Future/Event/call_soon are assumed contracts; SFTP handler cleanup not covered'),
+ 'C11': dict(text='Proof on send_packet for every packet type, flag valuation and block size/header case: what is '
+                  'emitted during a key exchange is a kex/transport message (RFC 4253 7.1), every packet is queued xor '
+                  'emitted, kex messages are never queued, the rekey trigger fires iff limits are reached, sequence rule; '
+                  '_send_deferred_packets resubmits FIFO and keeps packets re-queued by a nested exchange.',
+             ref='4/C11, 9', note='time.monotonic uninterpreted; _send_kexinit is an assumed contract here; compressor and '
+                  'cipher objects abstract'),
+ 'C12': dict(text='Proof on the SFTP parallel I/O engine: _start_tasks keeps issued ranges disjoint, sized 1..block_size and '
+                  'covering the request (variant _bytes_left); the iter() generator delivers every position below EOF exactly '
+                  'once, re-issues exactly the remainder of a short read, never ends normally after a failed block; reader '
+                  'reassembly by absolute offset; copier total check; _request_ranges window; SFTPClientFile offset tracking.',
+             ref='4/C12, 9', note='asyncio.wait partition, server reply contract (0 <= count <= size) assumed; composition of '
+                  'iter() with the three run() callers argued on paper; Windows/fallback range variants not covered'),
+ 'C13': dict(text='Proof over all byte strings that SFTPServer.map_path stays inside the chroot, reverse_map_path/readlink/'
+                  'symlink likewise, a dataflow scan that every path reaching the OS in SFTPServer comes from map_path, SCP sink '
+                  'names have no separator and are not "..", recursive SFTP copy/glob never join a remote name that is not a '
+                  'direct child.',
+             ref='4/C13, 9', note='posixpath join/normpath/basename are assumed contracts validated exhaustively on a bounded '
+                  'alphabet (bounded stand-in, not counted); symlinks already on disk and Windows path forms out of scope'),
+ 'C18': dict(text='Proof on config.py: every setter is first-value-wins over the whole option map (explicit none counts), '
+                  'accumulators accumulate, Match evaluates the conjunction with per-criterion negation (recursive spec), '
+                  'expansion = env(token(value)) and raises exactly on unresolved references, the server %u safety regex is '
+                  'equivalent to the stated predicate (regex translated to z3 Re, search semantics), parse() leaves inactive lines '
+                  'without effect; plus a bounded comparison against the real ssh -G.',
+             ref='4/C18, 9', note='shlex tokenizer only bounded-checked; known findings F-C18-2 (Host a,b) and F-C18-3 '
+                  '(trailing # comment) recorded; Include not under contract'),
+ 'C20': dict(text='Proof of the relay invariant out ++ _inpbuf == in over SSHForwarder/SSHLocalForwarder (early data before EOF, '
+                  'EOF forwarded once, half-close, close closes both), the permission decision tables of direct-tcpip / '
+                  'tcpip-forward / streamlocal (key and certificate restrictions, permitopen incl. wildcard port, owner result), '
+                  'listener registered iff success reply, cancel removes exactly that listener, the SOCKS4/4a/5 request automaton '
+                  '(decode, variant, nothing parsed after close).',
+             ref='4/C20, 9', note='real sockets, listener objects and application callbacks abstract; tun/tap has no gate in '
+                  'the code and no obligation'),
 }
 
 checks = []
